@@ -24,7 +24,7 @@ type outcome struct {
 	Decl                 string
 }
 
-func outcomeCases() ([]scen.Case, func(scen.Case) scen.Unit, func(scen.Case) []rt.Request) {
+func outcomeCases(flagged bool) ([]scen.Case, func(scen.Case) scen.Unit, func(scen.Case) []rt.Request) {
 	outs := []outcome{
 		{Name: "value-string", Ret: "string", Body: "\trec.Call(\"§\", \"none\")\n\treturn \"ok ü✓\", nil\n"},
 		{Name: "value-struct", Ret: "Res§", Body: "\trec.Call(\"§\", \"none\")\n\treturn Res§{A: \"x\", N: 3, L: []string{\"p\", \"q\"}}, nil\n"},
@@ -43,6 +43,11 @@ func outcomeCases() ([]scen.Case, func(scen.Case) scen.Unit, func(scen.Case) []r
 		{Name: "set-status-success", Ret: "string", Body: "\trec.Call(\"§\", \"none\")\n\tc.SetStatus(runtime.StatusAccepted)\n\treturn \"ok\", nil\n"},
 		{Name: "set-status-error", Ret: "string", Body: "\trec.Call(\"§\", \"none\")\n\tc.SetStatus(runtime.StatusTeapot)\n\treturn \"\", fmt.Errorf(\"teapot\")\n"},
 		{Name: "set-header", Ret: "string", Body: "\trec.Call(\"§\", \"none\")\n\tc.SetHeader(\"X-Custom\", \"v\")\n\treturn \"ok\", nil\n"},
+		// payloads that response validation (validateResponsePayload) would refuse
+		{Name: "value-struct-fails-own-validator", Ret: "VRes§", Body: "\trec.Call(\"§\", \"none\")\n\treturn VRes§{}, nil\n"},
+		{Name: "value-struct-pointer-fails-own-validator", Ret: "*VRes§", Body: "\trec.Call(\"§\", \"none\")\n\treturn &VRes§{N: 200}, nil\n"},
+		{Name: "value-slice-element-fails-own-validator", Ret: "[]VRes§", Body: "\trec.Call(\"§\", \"none\")\n\treturn []VRes§{{A: \"ok\", N: 1}, {}}, nil\n"},
+		{Name: "value-struct-passes-own-validator", Ret: "VRes§", Body: "\trec.Call(\"§\", \"none\")\n\treturn VRes§{A: \"ok\", N: 5}, nil\n"},
 	}
 	var cases []scen.Case
 	for i, o := range outs {
@@ -53,14 +58,32 @@ func outcomeCases() ([]scen.Case, func(scen.Case) scen.Unit, func(scen.Case) []r
 				Body: strings.ReplaceAll(o.Body, "\"§\"", "\"C"+id+".Op"+id+"\"")}
 			m.Body = sub(m.Body)
 			ctl := scen.Controller{Name: "C" + id, Pkg: id, Prefix: scen.S("/" + id), Tag: scen.S("T" + id), Methods: []scen.Method{m}}
-			decl := sub("type Res§ struct {\n\tA string `json:\"a\"`\n\tN int `json:\"n\"`\n\tL []string `json:\"l\"`\n}\n\ntype CErr§ struct {\n\terror\n\tCode int `json:\"code\"`\n}\n")
+			decl := sub("type Res§ struct {\n\tA string `json:\"a\"`\n\tN int `json:\"n\"`\n\tL []string `json:\"l\"`\n}\n\ntype CErr§ struct {\n\terror\n\tCode int `json:\"code\"`\n}\n\ntype VRes§ struct {\n\tA string `json:\"a\" validate:\"required\"`\n\tN int `json:\"n\" validate:\"lte=100\"`\n}\n")
 			cases = append(cases, scen.Case{ID: id, Unit: scen.Unit{Controllers: []scen.Controller{ctl}, Decls: map[string]string{id: decl},
 				Imports: map[string][]string{id: append([]string{"github.com/gopher-fleece/runtime"}, rt.RtImports...)}},
 				Features: map[string]string{"family": "outcome", "outcome": o.Name, "response": resp}, Desc: map[string]any{"outcome": outs[i].Name, "controller": ctl}})
 		}
 	}
+	if flagged {
+		// generateEnumValidator registers "<snake-case enum name>_enum" for struct tags; only meaningful with the flag on
+		id := fmt.Sprintf("o%04d", len(cases))
+		m := scen.Method{Name: "Op" + id, Verb: "POST", Route: scen.S("/op"), Ret: "string", Params: []scen.Param{{Name: "b", Type: "In" + id, In: "Body"}},
+			Body: "\trec.Call(\"C" + id + ".Op" + id + "\", \"none\", b)\n\treturn \"ok\", nil\n"}
+		ctl := scen.Controller{Name: "C" + id, Pkg: id, Prefix: scen.S("/" + id), Tag: scen.S("T" + id), Methods: []scen.Method{m}}
+		decl := "type Colour string\n\nconst (\n\tColourRed Colour = \"red\"\n\tColourBlue Colour = \"blue\"\n)\n\ntype In" + id + " struct {\n\tC Colour `json:\"c\" validate:\"required,colour_enum\"`\n}\n"
+		cases = append(cases, scen.Case{ID: id, Unit: scen.Unit{Controllers: []scen.Controller{ctl}, Decls: map[string]string{id: decl},
+			Imports: map[string][]string{id: rt.RtImports}},
+			Features: map[string]string{"family": "outcome", "outcome": "body-field-with-generated-enum-validator"}, Desc: map[string]any{"outcome": "body-field-with-generated-enum-validator", "controller": ctl, "decls": decl}})
+	}
 	instrument := func(c scen.Case) scen.Unit { return c.Unit }
 	reqsFor := func(c scen.Case) []rt.Request {
+		if c.Features["outcome"] == "body-field-with-generated-enum-validator" {
+			var out []rt.Request
+			for i, b := range []string{`{"c":"red"}`, `{"c":"blue"}`, `{"c":"green"}`, `{"c":""}`, `{}`, `{"c":"Red"}`} {
+				out = append(out, rt.Request{ID: fmt.Sprintf("%s#%d", c.ID, i), Verb: "POST", URL: "/" + c.ID + "/op", Body: b, ContentType: "application/json"})
+			}
+			return out
+		}
 		return []rt.Request{{ID: c.ID + "#0", Verb: "GET", URL: "/" + c.ID + "/op"}}
 	}
 	return cases, instrument, reqsFor
@@ -87,11 +110,22 @@ func Main(tier, replay string) {
 		instrument func(scen.Case) scen.Unit
 		reqsFor    func(scen.Case) []rt.Request
 		pack       int
+		flags      rt.Flags
 	}
-	oc, oi, or := outcomeCases()
+	oc, oi, or := outcomeCases(false)
 	sc, si, sr := c03.Space()
 	bc, bi, br := c05.Space(tier)
-	spaces := []space{{"outcomes", oc, oi, or, 20}, {"security", sc, si, sr, 8}, {"binding", bc, bi, br, 40}}
+	allOn := rt.Flags{EnumVal: true, TopEnum: true, RespVal: true}
+	fc, fi, fr := outcomeCases(true)
+	spaces := []space{{"outcomes", oc, oi, or, 20, rt.Flags{}}, {"security", sc, si, sr, 8, rt.Flags{}}, {"binding", bc, bi, br, 40, rt.Flags{}},
+		// the same request spaces against routers generated with validateResponsePayload and both experimental enum switches on
+		{"outcomes/flags-on", fc, fi, fr, 20, allOn}, {"binding/flags-on", bc, bi, br, 40, allOn}}
+	if tier == "thorough" {
+		for i := 1; i < 7; i++ {
+			f := rt.Flags{EnumVal: i&1 != 0, TopEnum: i&2 != 0, RespVal: i&4 != 0}
+			spaces = append(spaces, space{fmt.Sprintf("outcomes/flags-%d", i), fc, fi, fr, 20, f}, space{fmt.Sprintf("binding/flags-%d", i), bc, bi, br, 40, f})
+		}
+	}
 	var replayID string
 	if replay != "" {
 		_, v := core.LoadReplay(replay)
@@ -111,7 +145,7 @@ func Main(tier, replay string) {
 				continue
 			}
 		}
-		crs := rt.RunCases(scratch, cases, sp.pack, 6, sp.instrument, sp.reqsFor, nil, rt.Flags{}, deadline)
+		crs := rt.RunCases(scratch, cases, sp.pack, 6, sp.instrument, sp.reqsFor, nil, sp.flags, deadline)
 		for _, cr := range crs {
 			c := cr.Case
 			if cr.Run == nil {
@@ -156,7 +190,7 @@ func Main(tier, replay string) {
 					if len(diffs) > 0 {
 						same = false
 						aspect := strings.Fields(diffs[0])[0]
-						feat := map[string]string{"space": sp.name, "pair": "gin/" + e, "aspect": aspect}
+						feat := map[string]string{"space": sp.name, "flags": fmt.Sprintf("%+v", sp.flags), "pair": "gin/" + e, "aspect": aspect}
 						for k, v := range c.Features {
 							feat[k] = v
 						}
@@ -185,7 +219,7 @@ func Main(tier, replay string) {
 	run.Set("requests_on_which_all_five_agree", agree)
 	run.Sample(map[string]any{"space": "outcomes", "scenario": oc[0].Desc})
 	run.Sample(map[string]any{"space": "security", "request": "GET /<id>/q?n=abc", "verdicts": []int{2, 1}})
-	run.Bound = fmt.Sprintf("operation-outcome family (%d scenarios: success shapes, plain/RFC-7807/custom errors by value and pointer, SetStatus, SetHeader, with and without @Response), the C03 security space (all verdict vectors) and the C05 binding space (value alphabets); every request against all five engines, compared pairwise through gin (equality is transitive)", len(oc))
+	run.Bound = fmt.Sprintf("operation-outcome family (%d scenarios: success shapes, payloads failing their own validators, plain/RFC-7807/custom errors by value and pointer, SetStatus, SetHeader, with and without @Response), the C03 security space (all verdict vectors) and the C05 binding space (value alphabets); the outcome (plus a generated-enum-validator body) and binding spaces again with validateResponsePayload, validateTopLevelOnlyEnum and generateEnumValidator on (thorough: every combination of the three); every request against all five engines, compared pairwise through gin (equality is transitive)", len(oc))
 	run.Rule = "state = (scenario, request); transition = one HTTP request served in-process by one compiled generated router; validated = requests whose five responses (invoked method, arguments, authorization sequence, status, JSON-equivalent body) were compared"
 	run.Assumptions = []string{"header casing/order, Content-Type parameters and body whitespace are not compared", "engines run in strict configuration; requests are delivered in-process"}
 	os.RemoveAll(scratch)
